@@ -157,6 +157,17 @@ def run(ctx):
     rule_qlim(ctx)
     from rules.C01 import rule_zip_sibling
     rule_zip_sibling(ctx)
+    RB = "BYPASS-VOLTAGE"
+    ctx.rule(RB, "when every bus is a reference bus the power flow is bypassed: _bypass_pf_and_set_results hands the complex set-point "
+                 "vector (V0 = vm * exp(j va), with the generator magnitudes) to pfsoln - the magnitudes alone lose the ext_grid angles")
+    fb = ctx.repo.func("pandapower.powerflow:_bypass_pf_and_set_results")
+    vs = [st for st in ast.walk(fb.node) if isinstance(st, ast.Assign) and norm(st.targets[0], 10) == "V"]
+    call = next((c for c in ast.walk(fb.node) if isinstance(c, ast.Call) and norm(c.func, 40).endswith("pfsoln_pypower")), None)
+    varg = norm(call.args[11], 20) if call is not None and len(call.args) > 11 else None
+    src = norm(vs[-1].value, 120) if vs else (varg or "")
+    ok = call is not None and (varg == "V0" or (varg == "V" and ("V0" in src or ("VA" in src and "VM" in src))))
+    ctx.ob(RB, "pandapower.powerflow::_bypass_pf_and_set_results::complex-set-point", ok,
+           f"pfsoln receives V = {src}" if ok else f"pfsoln receives V = {src}: voltage angles of the reference buses are dropped", fb.loc())
     from rules import _lints
     R6 = "SPLIT-TOTAL"
     ctx.rule(R6, "an ordinary generator at a reference bus keeps its set-point: only the reference rows are assigned the slack share, which "
@@ -177,6 +188,7 @@ def variants(repo):
         V("demand adjusted by the stored limit", nr, replace_once("bus[bi, [PD, QD]] = (bus[bi, [PD, QD]] - gen[limited[i], [PG, QG]])", "bus[bi, PD] -= gen[limited[i], PG]\n                bus[bi, QD] -= fixedQg[limited[i]]"), "adjust"),
         V("twin: adjustment column by column", nr, replace_once("bus[bi, [PD, QD]] = (bus[bi, [PD, QD]] - gen[limited[i], [PG, QG]])", "bus[bi, PD] -= gen[limited[i], PG]\n                bus[bi, QD] -= gen[limited[i], QG]"), None),
         V("loop exits with lower violations", nr, replace_once("if len(mx) > 0 or len(mn) > 0:", "if len(mx) > 0:"), "QLIM-LOOP"),
+        V("bypass with magnitudes only", "pandapower/powerflow.py", in_function("_bypass_pf_and_set_results", replace_once("    V = V0\n", '    V = ppci["bus"][:, VM]\n')), "BYPASS-VOLTAGE"),
         V("ordinary gen at the slack bus shares the slack power", "pandapower/pypower/pfsoln.py", replace_once("gen[ext_grids, PG] = p_ext_grids / len(ext_grids)", "gen[gens_at_bus, PG] = p_bus / len(gens_at_bus)"), "SPLIT-TOTAL"),
         V("zip coefficient not averaged", "pandapower/build_bus.py", in_function("_calc_pq_elements_and_add_on_ppc", replace_once("CZD_Q] = cz_q_sum / no_loads", "CZD_Q] = cz_q_sum")), "ZIP-SIBLING"),
         V("step lost for plain shunts next to table shunts", rb, in_function("_get_shunt_results", lambda s: s.replace("merged_df['p_mw'].values).astype(np.float64)\n", "merged_df['p_mw'].values).astype(np.float64)\n            step = 1\n", 1).replace("merged_df['p_mw_char'].values/merged_df['step'].values", "merged_df['p_mw_char'].values", 1)), "res_shunt.p_mw"),
